@@ -1,7 +1,7 @@
 (* Driver commands for Model/BashSem.v and Model/Glob.v.
 
    bashsem <variant> <start> <alltables> (queries (q <wordbreaks> <ignorecase 0|1> (outputs (id "text")...) (words "w"...) "prefix")...)
-       variant = pinned | fixed ; alltables = cg-dump's TABLES payload
+       variant = pinned | fixed | repaired ; alltables = cg-dump's TABLES payload
        -> ((ok rc (reply "c"...) (log (id "a1" "a2")...)) | (err "msg") | (outoffuel) | (panic "site") ...)   one per query
    subword <variant> <mode matches|complete> <tables> <alltables> <ignorecase> (outputs ...) "word"
        -> (ok matched|(adds "m"...) (log ...)) | ...
@@ -19,6 +19,7 @@ open Sx
 let variant_of v = match atom v with
   | "pinned" -> B.Pinned
   | "fixed" -> B.Fixed
+  | "repaired" -> B.Repaired
   | s -> raise (Shape ("variant: " ^ s))
 
 let bool_of v = match atom v with "0" -> false | "1" -> true | s -> raise (Shape ("bool: " ^ s))
